@@ -25,8 +25,8 @@ def setup(lib):
     contracts.attach(lib, which=("ragged",))
 
 
-def mk_case(lens, dtype, vals, op, j=0, recv="fresh"):
-    return {"lens": list(lens), "dtype": np.dtype(dtype).name, "vals": vals, "op": op, "j": j, "recv": recv}
+def mk_case(lens, dtype, vals, op, j=0, recv="fresh", vclass="small"):
+    return {"lens": list(lens), "dtype": np.dtype(dtype).name, "vals": vals, "op": op, "j": j, "recv": recv, "vclass": vclass}
 
 
 def run(case):
@@ -71,6 +71,11 @@ def run(case):
         ok = np.allclose(g.astype(np.float64), exp, rtol=1e-6 if dt == np.float32 else 1e-12, atol=0, equal_nan=True)
     elif op == "getcol":
         ok = same_array(g, exp, dtype=True)
+    elif case.get("vclass") == "huge":
+        # sums beyond 2**53 cannot be exact in the float64 the library returns: bound the error relative to the exact integer sums
+        ex = [sum(int(x) for x in c) for c in cols]
+        mag = [sum(abs(int(x)) for x in c) for c in cols]
+        ok = all(abs(float(gv) - float(e)) <= 1e-9 * max(1.0, float(m)) for gv, e, m in zip(g.tolist(), ex, mag))
     else:
         ok = bool(np.all(g.astype(np.float64) == exp.astype(np.float64))) and all(float(x) == float(y) for x, y in zip(g.tolist(), exp.tolist()))
     if not ok:
@@ -84,6 +89,11 @@ def run(case):
 
 def _vals(rng, dtype, n, vclass):
     dt = np.dtype(dtype)
+    if vclass == "huge":
+        if dt.kind in "iu" and dt.itemsize == 8:
+            ii = np.iinfo(dt)
+            return [rng.choice([int(ii.max), int(ii.max) - 5, int(ii.max) // 2 + 3, 7, 0] + ([int(ii.min), -3] if dt.kind == "i" else [2 ** 63, 2 ** 63 + 11])) for _ in range(n)]
+        vclass = "medium"
     if vclass == "medium" and dt.kind in "iu" and dt.itemsize == 8:
         lo = 0 if dt.kind == "u" else -2 ** 40
         return [rng.randint(lo, 2 ** 40) for _ in range(n)]
@@ -97,7 +107,9 @@ def gen_case(rng, lens, dtype, op=None, recv="fresh", vclass="small", j=None):
     M = max(lens) if lens else 0
     if j is None:
         j = rng.randint(0, max(0, M - 1))
-    return mk_case(lens, dtype, _vals(rng, dtype, sum(lens), vclass), op, j, recv)
+    if vclass == "huge" and (op not in ("sum0", "np.sum0") or np.dtype(dtype).name not in ("int64", "uint64")):
+        vclass = "medium"
+    return mk_case(lens, dtype, _vals(rng, dtype, sum(lens), vclass), op, j, recv, vclass)
 
 
 def directed():
@@ -109,6 +121,7 @@ def directed():
             for op in OPS[:-1]:
                 yield gen_case(rng, lens, dtype, op)
                 yield gen_case(rng, lens, dtype, op, vclass="medium")
+                yield gen_case(rng, lens, dtype, op, vclass="huge")
             for j in range(max(lens)):
                 yield gen_case(rng, lens, dtype, "getcol", j=j)
         for recv in c02.RECVS[1:]:
@@ -127,7 +140,7 @@ def random_case(rng, tier):
         lens = [1, 0, 2]
     dtype = rng.choice(gen.DT_ALL)
     recv = rng.choice(c02.RECVS) if rng.random() < 0.4 else "fresh"
-    return gen_case(rng, lens, dtype, None, recv, rng.choice(["small", "medium"]))
+    return gen_case(rng, lens, dtype, None, recv, rng.choice(["small", "medium", "huge"]))
 
 
 def classify(case, res):
